@@ -455,3 +455,29 @@ def stretched_family(nmax, length):
     structure stays that of F_nmax"""
     return [stretch(d, length) for d in F(nmax)
             if any(it[0] != 'ev' for it in d)]
+
+
+def silent_break_family():
+    """beyond F: a decision node in a loop body with a silent break (break
+    branch without an event) next to evented breaks and continuing branches
+    (polling loops: `error: log; break / done: break / else: wait`)"""
+    E_ = lambda n: ('ev', n)  # noqa: E731
+    B = ('break',)
+    out = []
+    for tail in ((E_('R'),), (E_('R'), E_('T'))):
+        for pre in ((E_('A'),), (E_('A'), E_('B'))):
+            bodies = [
+                (('xor', ((B,), (E_('W'),))),),
+                (('xor', ((E_('L'), B), (B,), (E_('W'),))),),
+                (('xor', ((E_('L'), B), (E_('M'), B), (B,), (E_('W'),))),),
+                (('xor', ((E_('L'), B), (B,), (E_('W'),), (E_('V'),))),),
+                (('xor', ((E_('L'), B), (B,), (E_('W'), E_('V')))),),
+                (('xor', ((E_('L'), B), (B,), (E_('W'),))), E_('Z')),
+            ]
+            for body in bodies:
+                out.append((E_('S'), ('loop', pre + body)) + tail)
+    # the same decision inside a nested loop
+    out.append((E_('S'), ('loop', (E_('A'), ('loop', (
+        E_('B'), ('xor', ((E_('L'), B), (B,), (E_('W'),))))), E_('C'))),
+        E_('R')))
+    return out
